@@ -189,6 +189,12 @@ def build_traces(path, tier, seed):
         a, shape = gen.record(rng, n)
         if i % 5 == 0:
             a = np.round(a / (np.max(np.abs(a)) + 1e-300) * 4)     # integer valued: exact ties with dyadic fractions
+        elif rng.integers(5) == 0:
+            # counts in a narrow integer dtype (the cumulative measures square / sum them)
+            dt_, top = [(np.int8, 100), (np.int16, 30000), (np.int32, 2.0e9), (np.uint8, 250)][int(rng.integers(4))]
+            a = np.abs(a) if dt_ is np.uint8 else np.asarray(a, dtype=float)
+            a = np.round(a / (np.max(np.abs(a)) + 1e-300) * top).astype(dt_)
+            shape += " (%s counts)" % np.dtype(dt_).name
         dt = gen.dt(rng)
         variant = ["vals", "arias", "cav", "cumsq", "signed"][i % 5]
         if variant == "signed":
@@ -249,6 +255,22 @@ def build_traces(path, tier, seed):
         ns, s0, s1, sd = brac(a * alpha, dt, thr * abs(alpha))
         add({"kind": "rel", "law": "same", "clause": "BracScaleTogether", "dt": enc(dt), "k": 0, "x": enc_seq([none, b0, b1, bd]), "y": enc_seq([ns, s0, s1, sd])},
             {"kind": "rel", "law": "BracScaleTogether", "alpha": alpha, "n": n})
+    # counts in a narrow integer dtype through every variant (the cumulative measures square / sum the samples)
+    HISTORY["on"] = False
+    for j in range(12 if tier == "quick" else 60):
+        n = int(rng.integers(12, 300))
+        a, shape = gen.record(rng, n, shape=["noise", "sine", "burst"][j % 3], amp=1.0)
+        dt_, top = [(np.int8, 100), (np.int16, 30000), (np.int32, 2.0e9), (np.uint8, 250)][j % 4]
+        a = np.abs(a) if dt_ is np.uint8 else np.asarray(a, dtype=float)
+        a = np.round(a / (np.max(np.abs(a)) + 1e-300) * top).astype(dt_)
+        dt = gen.dt(rng)
+        variant = ["vals", "arias", "cav"][(j // 4) % 3]
+        lo, hi = PAIRS[int(rng.integers(len(PAIRS)))]
+        r, t0, t1 = sig(variant, a, dt, lo, hi)
+        r2, d = sig(variant, a, dt, lo, hi, se=False)
+        add({"kind": "sig", "variant": variant, "dt": enc(dt), "a": enc_seq(np.asarray(a, dtype=float)), "lo": enc(lo), "hi": enc(hi), "raised": bool(r),
+             "t0": enc(t0), "t1": enc(t1), "dur": enc(d)},
+            {"kind": "sig", "variant": variant, "n": n, "shape": shape + " (%s counts)" % np.dtype(dt_).name, "dt": dt, "lo": lo, "hi": hi, "raised": bool(r), "t0": t0, "t1": t1})
     # a non-monotone user-supplied measure whose oscillation crosses both fractions several times (the in-band samples are then
     # not a single run: the first and the last of them are not the first crossing of one fraction and the last of the other)
     HISTORY["on"] = False
